@@ -31,6 +31,10 @@ CLAIMED = {
          "Structural necessary conditions: the peer address has exactly four writers (two constructions, two post-authentication tails); the tail stores are dominated by a successful open+replay check of the datagram whose source they store; nothing else reads, copies or writes the replay window; the sender uses the address captured under the lock after sealing.",
          "Trusts go/ssa; C03.R1 supplies that readPacketLocked's success implies Check and Open. History-level roaming behaviour is not decided.",
          "DESIGN.md §3 C15"),
+ "C19": ("call-graph reachability from the ClientHello arm with who-may-write on every Server field (plus a positive control), dominance with polarity for table inserts / datagram writes / handshake finish in readPacket, fail-closed chain analysis (readPQClientAck <- replay <- decryptCookie <- Open), def-use provenance of the cookie's associated data with an allow-list of injective address transformations, order atoms for the hidden-mode timestamp window",
+         "Structural necessary conditions: nothing reachable from the ClientHello arm writes server state; handshake state is stored only after the cookie opened and the ack MAC verified, with exact length; the cookie's AEAD authenticates a hash of the whole client key, the unmodified (or injectively transformed) IP and both port bytes, taken from this datagram, under the current cookie key; in hidden mode every reaction is under !IsHidden or after a verified hidden request with both timestamp tests.",
+         "Trusts go/ssa, VTA restricted to package transport for the arm reachability, the injective-transformation allow-list (To16, String, MarshalText). Replays inside the timestamp window and timing are not decided.",
+         "DESIGN.md §3 C19"),
 }
 
 NOT_APPLICABLE = {
